@@ -493,6 +493,23 @@ func runCase(t *testing.T, c *vk.C, sc scase) {
 }
 
 func TestCheck(t *testing.T) {
+	if os.Getenv("VERIF_PART") == "hashdel" {
+		// the same family reporting under another property (C01: nothing readable once deletion is complete)
+		prop := os.Getenv("VERIF_PROP")
+		r2 := vk.New(prop)
+		defer r2.Done()
+		for v := 0; v < r2.Env.N(16, 200); v++ {
+			if !r2.Mine(v) {
+				continue
+			}
+			c := r2.Begin(v, map[string]any{"family": "piece-being-hashed-at-deletion", "variant": v})
+			hashingAtDeletion(t, c, prop, v)
+			c.FP(vk.Hash64("hashdel", v%4), true)
+			c.End()
+		}
+		r2.Finish()
+		return
+	}
 	r := vk.New("C17")
 	defer r.Done()
 	if os.Getenv("VERIF_PART") == "webseed-stop" {
@@ -515,6 +532,17 @@ func TestCheck(t *testing.T) {
 			c.FP(vk.Hash64(sc.Op, sc.Pos, sc.Peers, sc.Rdrs, sc.Depth), true)
 			c.End()
 		}
+	}
+	for v := 0; v < r.Env.N(16, 200); v++ {
+		i := idx
+		idx++
+		if !r.Mine(i) {
+			continue
+		}
+		c := r.Begin(i, map[string]any{"family": "piece-being-hashed-at-deletion", "variant": v})
+		hashingAtDeletion(t, c, "C17", v)
+		c.FP(vk.Hash64("hashdel", v%4), true)
+		c.End()
 	}
 	r.Count("enumerated_cases", int64(len(cases)))
 	r.Finish()
